@@ -339,8 +339,9 @@ def obs_term(r):
     parts = []
     for s in snaps:
         parts.append('(%d, %s, %s, %d, %d, %d)' % (s['st'], cbool(s['sock']), cbool(s['timer']), s['raw'], s['wire'], s['ngiven']))
-    return '(mkobs %d %s %s %s)' % (OUTCOME[r['outcome']], clist([cbytes(w) for w in r['wire']]),
-                                    clist([given_term(g) for g in r['given']]), clist(parts))
+    return '(mkobs %d %s %s %s %s)' % (OUTCOME[r['outcome']], clist([cbytes(w) for w in r['wire']]),
+                                       clist([given_term(g) for g in r['given']]), clist(parts),
+                                       clist([cbytes(x) for x in r['frames']]))
 
 
 def run(ops, acceptor, max_len=65536, **kw):
